@@ -527,7 +527,7 @@ class RebuildCheck:
     # ------------------------------------------------------------- C19
     @staticmethod
     def hostile_alphabet(abs_target):
-        return ["d", "..", ".", "", abs_target, "a/../../b", "../..",
+        return ["d", "..", ".", "", "<ABS>", "a/../../b", "../..",
                 "/".join([".."] * 12), "<SIBLING>"]
 
     def run_hostile(self, g, res):
@@ -549,7 +549,8 @@ class RebuildCheck:
         search = os.path.join(sb, "search")
         world.write_file(os.path.join(search, "f"), data)
         world.write_file(os.path.join(search, "sub", "b"), data)
-        if name not in ("", ".", "..") and "/" not in name:
+        if name not in ("", ".", "..") and "/" not in name and \
+                "<" not in name:
             world.write_file(os.path.join(search, "n", name), data)
         world.write_file(os.path.join(search, "empty", "f"), b"")
         n = 0
@@ -589,8 +590,9 @@ class RebuildCheck:
                     # <SIBLING> = a directory next to the destination whose
                     # name has the destination's name as a prefix
                     sib = "../" + os.path.basename(dest) + "x"
-                    rseq = tuple(sib if e == "<SIBLING>" else e for e in seq)
-                    rname = sib if name == "<SIBLING>" else name
+                    subst = {"<SIBLING>": sib, "<ABS>": abs_target}
+                    rseq = tuple(subst.get(e, e) for e in seq)
+                    rname = subst.get(name, name)
                     tree = {(): data} if single else {rseq + (last,): data}
                     if ver == 1:
                         m = model.ref_v1(rname, tree, P)
